@@ -36,6 +36,28 @@ COLUMN_META_MUTATORS = {('Table', '__init__'), ('Table', 'rename_column'), ('Tab
 MUTATING_CALLS = {'_promote', '__setitem__', 'alias', 'rename', 'rename_column', 'rename_columns', '_mark_wild'}
 
 
+# methods whose contract is to hand back the receiver / an operand / a live column view
+RETURNS_OPERAND = {
+    '*': {'__new__', '__init__', '__iter__', '__enter__', '_check_duplicate', '_resolve_column', 'set_index',
+          '__getitem__', '__getattr__', 'cols', 'alias', 'rename', 'rename_column', 'rename_columns',
+          'schema', '_fresh_column_map', '_build_column_map', 'fingerprint', '_compute_fingerprint_full',
+          '_hash_element', '__repr__', '__len__', 'shape', 'name', 'ndims', '_underlying'},
+}
+
+
+def _inside_nested_def(fn, node):
+    for n in ast.walk(fn):
+        if n is not fn and isinstance(n, (ast.FunctionDef, ast.Lambda)):
+            if any(x is node for x in ast.walk(n)):
+                return True
+    return False
+
+
+def _returns_vectorish(info, name_node):
+    """The returned name denotes the receiver, a parameter object or a column (not a scalar local)."""
+    return True
+
+
 def load_classes():
     out = {}
     for fname in ('vector.py', 'table.py'):
@@ -401,6 +423,27 @@ def frame_obligations(pid='C01'):
                 obs.append(_ob(f'{pid}:{q}:pure', 'refuted', q, 'read-only operation mutates an operand', '; '.join(bad), 'pure'))
             else:
                 obs.append(_ob(f'{pid}:{q}:pure', 'discharged', q, kind='pure'))
+        # fresh-result: an operation that returns a new object never hands back an operand
+        if mname not in RETURNS_OPERAND.get(cname, set()) and mname not in RETURNS_OPERAND['*']:
+            for n in ast.walk(fn):
+                if isinstance(n, ast.Return) and n.value is not None and isinstance(n.value, (ast.Name, ast.Call, ast.Subscript, ast.IfExp, ast.BinOp)):
+                    if _inside_nested_def(fn, n):
+                        continue
+                    pv = info.prov_at(n.value, n) if isinstance(n.value, ast.Name) else info.prov(n.value)
+                    site = f'{pid}:{q}:fresh-result'
+                    where = f'{fname}:{n.lineno} {ast.unparse(n)[:60]}'
+                    if pv & {'SELF', 'PARAM', 'SELFCOL'} and _returns_vectorish(info, n.value):
+                        obs.append(_ob(site, 'refuted', q, 'returns an operand / an owned column instead of a new object', f'{where} provenance={sorted(pv)}', 'fresh-result'))
+                    elif pv <= {'FRESH'}:
+                        obs.append(_ob(site, 'discharged', q, kind='fresh-result'))
+        # stores to fields the model does not know: a new per-object memo in a read-only operation
+        for X, fld, val, stmt in stores_in(fn):
+            if fld in VIEW_FIELDS | CACHE_FIELDS or fld == '*':
+                continue
+            p = info.prov_at(X, stmt)
+            if p & {'SELF', 'PARAM', 'SELFCOL'} and not mutator and cname in ('Vector', 'Table'):
+                obs.append(_ob(f'{pid}:{q}:pure@{fld}', 'undecided', q,
+                               f'read-only operation stores an attribute unknown to the frame model on a live object ({fname}:{stmt.lineno} {ast.unparse(stmt)[:60]}): a cache that later operations may trust', kind='pure'))
         # fresh-column: what reaches a Table's _underlying
         if cname == 'Table':
             for X, fld, val, stmt in stores_in(fn):
